@@ -34,7 +34,12 @@ Unknowns == << NTag(<<1>>, NUint(<<5>>)),
                NTag(<<1, 0, 0>>, [t |-> MT_ARR, w |-> 0, a |-> <<1>>, kids |-> <<NTag(<<2>>, NTstr(<<97>>))>>]),
                [t |-> MT_SIMPLE, w |-> 8, a |-> <<64, 9, 33, 251, 84, 68, 45, 24>>],
                NNint(<<255, 255>>), NSimple(23), [t |-> MT_SIMPLE, w |-> 2, a |-> <<60, 0>>],
-               [t |-> MT_MAP, w |-> 0, a |-> <<>>, kids |-> <<>>] >>
+               [t |-> MT_MAP, w |-> 0, a |-> <<>>, kids |-> <<>>],
+               \* simple values: one-byte (unassigned 0 and 19, null) and two-byte ones (32, 200, 255), also nested and tagged
+               NSimple(0), NSimple(19), NSimple(22),
+               [t |-> MT_SIMPLE, w |-> 1, a |-> <<32>>], [t |-> MT_SIMPLE, w |-> 1, a |-> <<200>>], [t |-> MT_SIMPLE, w |-> 1, a |-> <<255>>],
+               [t |-> MT_ARR, w |-> 0, a |-> <<2>>, kids |-> <<[t |-> MT_SIMPLE, w |-> 1, a |-> <<100>>], NUint(<<1>>)>>],
+               NTag(<<15, 160>>, [t |-> MT_MAP, w |-> 0, a |-> <<1>>, kids |-> <<NUint(<<1>>), [t |-> MT_SIMPLE, w |-> 1, a |-> <<99>>]>>]) >>
 UnknownKey(s) == IF s % 2 = 0 THEN NUint(FromInt(64 + Pick(s, 900))) ELSE NNint(FromInt(63 + Pick(s, 900)))
 
 RotatePairs(kids, r) ==      \* rotate the (key, value) pairs of a map by r pairs
